@@ -83,6 +83,15 @@ pub async fn vcs_types(origin: &Path) -> Vec<ProjectType> {
 	vcs_types
 }
 
+/// The ignore files given with `--ignore-file` (or `$WATCHEXEC_IGNORE_FILES`).
+pub fn explicit_ignore_files(args: &Args) -> impl Iterator<Item = IgnoreFile> + '_ {
+	args.filtering.ignore_files.iter().map(|ig| IgnoreFile {
+		applies_to: None,
+		applies_in: None,
+		path: ig.clone(),
+	})
+}
+
 pub async fn ignores(args: &Args, vcs_types: &[ProjectType]) -> Result<Vec<IgnoreFile>> {
 	let origin = args.filtering.project_origin.clone().unwrap();
 	let mut skip_git_global_excludes = false;
@@ -182,17 +191,6 @@ pub async fn ignores(args: &Args, vcs_types: &[ProjectType]) -> Result<Vec<Ignor
 		"combined and applied overall vcs filter over ignores"
 	);
 
-	ignores.extend(args.filtering.ignore_files.iter().map(|ig| IgnoreFile {
-		applies_to: None,
-		applies_in: None,
-		path: ig.clone(),
-	}));
-	debug!(
-		?ignores,
-		?args.filtering.ignore_files,
-		"combined with ignore files from command line / env"
-	);
-
 	if args.filtering.no_project_ignore {
 		ignores = ignores
 			.into_iter()
@@ -223,6 +221,14 @@ pub async fn ignores(args: &Args, vcs_types: &[ProjectType]) -> Result<Vec<Ignor
 			.collect::<Vec<_>>();
 		debug!(?ignores, "filtered ignores to exclude VCS-specific ignores");
 	}
+
+	// explicitly given ignore files are not "discovered": none of the no-* flags apply to them
+	ignores.extend(explicit_ignore_files(args));
+	debug!(
+		?ignores,
+		?args.filtering.ignore_files,
+		"combined with ignore files from command line / env"
+	);
 
 	info!(files=?ignores.iter().map(|ig| ig.path.as_path()).collect::<Vec<_>>(), "found some ignores");
 	Ok(ignores)
